@@ -156,7 +156,26 @@ pub fn gen_case(rng: &mut Rng, opts: &GenOpts) -> Case {
     } else {
         rng.urange(2, 7)
     };
-    let alpha = text::alphabet(rng, alpha_size, opts.flavor);
+    let mut alpha = text::alphabet(rng, alpha_size, opts.flavor);
+    if opts.tiny && !rng.chance(1, 12) {
+        // the char-wise automaton is indexed by code point: high code points make its construction
+        // and serialisation cost minutes under Miri, so most Miri-sized cases use low code points
+        // (one representative per character type)
+        for c in alpha.iter_mut() {
+            if (*c as u32) > 0x5000 {
+                *c = match text::ctype(*c) {
+                    text::DIGIT => '7',
+                    text::ROMAN => 'x',
+                    text::KATAKANA => 'ア',
+                    text::KANJI => '人',
+                    text::HIRAGANA => 'の',
+                    _ => '。',
+                };
+            }
+        }
+        alpha.sort_unstable();
+        alpha.dedup();
+    }
     let n_texts = rng.urange(opts.min_texts, opts.max_texts);
     let mut texts = vec![];
     for _ in 0..n_texts {
